@@ -472,6 +472,9 @@ add("C27", "fixed", "macro:arguments-without-commas", "{% call f 1 2 %} and {% c
     "left-over tokens are now a syntax error",
     [{"kind": "macro", "params": ["none", "none"], "npos": 2, "kws": [], "call_comma": False, "async": False}], "7843a2f")
 
+add("C21", "fixed", "missed-unknown-tag:end-of-an-end-tag", "an 'endendif' tag made the analysis infer a block tag called 'endif': 'if' was reported unclosed, 'endif' unknown, and 'endendif' itself - unknown, and closing nothing - "
+    "was not reported", [{"source": "{% if a %}{% endif %}{% endendif %}", "extra": False}], "d12cd7a")
+
 if __name__ == "__main__":
     # further entries are appended by tools/mkfindings.py from triaged replay files and kept in findings_extra.json
     extra_path = os.path.join(VERIF, "tools", "findings_extra.json")
